@@ -72,6 +72,8 @@ def evaluate(alg, polys, x, style=0):
     xs = [x[i] for i in range(N)]
     vals = []
     inplace = (abs(style) // 6) % 2 == 1         # accumulate like the builtin sum(): start from the integer 0, then update in place
+    first = (abs(style) // 12) % 2 == 1          # with inplace: start from the first product coefficient * monomial (every coefficient is
+    #                                              multiplied in, also a 1, given as a Python int where it is one) and update that in place
     for p in polys:
         acc = 0 if inplace else None
         for e, c in sorted(p.t.items()):
@@ -89,11 +91,15 @@ def evaluate(alg, polys, x, style=0):
                     f = xs[i] ** ei if ei != 2 else xs[i] * xs[i]
                 term = f if term is None else term * f
             cf = float(c)
+            if first and cf == int(cf):
+                cf = int(cf)
             if term is None:
                 term = cf + 0 * xs[0]
-            elif cf != 1.0:
+            elif cf != 1.0 or first:
                 term = cf * term if style % 2 == 0 else term * cf
-            if inplace:
+            if inplace and first and isinstance(acc, int):
+                acc = term
+            elif inplace:
                 if isinstance(acc, int):
                     acc = acc + term
                 else:
